@@ -36,8 +36,9 @@ logging.disable(logging.CRITICAL)
 
 EXTRA = {
     "assumptions": [
-        "opening a root / a single source succeeds: the path given to read_csv / read_excel / write_* exists, is readable "
-        "/ writable and (for .xlsx) is a well-formed workbook. For load_files a missing, duplicated, unsupported (.txt) or "
+        "the path given to read_csv / write_* exists and is readable / writable. A workbook that cannot be opened or read "
+        "(not a workbook, zero bytes, truncated, damaged sheet part) is modelled (gap while loading / failing block) and "
+        "generated for read_excel and load_files. For load_files a missing, duplicated, unsupported (.txt) or "
         "refused (LoadError) *include* is modelled (a `gap` between two files that `throwInGap` hits) and generated",
         "PARTIAL - write_excel(backend=XLSXWRITER) is NOT covered: write_excel_xlsxwriter is `wb = xlsxwriter.Workbook(path) "
         "... wb.close()` with neither `with` nor try/finally (frame-table row: opener outside any with + explicit close; "
@@ -58,6 +59,13 @@ EXTRA = {
         "errors are raised while a block is produced (illegal cell + raising tracker, raising filter), between two files "
         "of load_files, while a workbook is serialised, or thrown by the consumer; an include directive or a sheet that "
         "is consumed without being yielded cannot be the failing block",
+        "openpyxl's own per-sheet scratch files (tempfile prefix `openpyxl.`, created inside wb.save and left to the "
+        "garbage collector by openpyxl when save fails) are excluded from the descriptor observation: they are not "
+        "opened by pdtable. Every other descriptor that appears during a call - inside or outside the scratch directory "
+        "- is judged",
+        "the clause 'a stream supplied by the caller is never closed' is decided by the harness on the real code; the "
+        "theorem caller_stream_untouched speaks about the model, whose choice of nullcontext for a stream source is not "
+        "read from the source (the frame table drops the test of the conditional)",
         "single consumer thread; no concurrent modification of the files",
         "the pinned frame table is a canonical abstraction of the source (harness/extract.py item with_frames): callee "
         "names and the kind of each positional argument (<param> / <local> / nested call) of with-items, opener calls, "
@@ -156,7 +164,38 @@ def _write_file(scratch, f):
                 ws.append(r)
         wb.save(path)
         wb.close()
+        if f.get("broken"):
+            _break_workbook(path, f["broken"])
     return path
+
+
+BROKEN_KINDS = ["notwb", "empty", "truncated", "badsheet"]
+
+
+def _break_workbook(path, kind):
+    """a file named .xlsx that openpyxl cannot (fully) read: a zip archive that is not a workbook, a zero-byte file, a
+    workbook cut in the middle, a workbook whose first sheet part is not XML"""
+    import zipfile
+    if kind == "notwb":
+        with zipfile.ZipFile(path, "w") as z:
+            z.writestr("hello.txt", "not a workbook")
+    elif kind == "empty":
+        open(path, "wb").close()
+    elif kind == "truncated":
+        with open(path, "rb") as fh:
+            data = fh.read()
+        with open(path, "wb") as fh:
+            fh.write(data[: len(data) // 2])
+    elif kind == "badsheet":
+        with zipfile.ZipFile(path) as z:
+            members = [(i, z.read(i.filename)) for i in z.infolist()]
+        with zipfile.ZipFile(path, "w", zipfile.ZIP_DEFLATED) as z:
+            for i, data in members:
+                if i.filename == "xl/worksheets/sheet1.xml":
+                    data = b"<worksheet><sheetData><row><c></row"
+                z.writestr(i.filename, data)
+    else:
+        raise ValueError(kind)
 
 
 class _Rows:
@@ -185,14 +224,24 @@ def _reference_blocks(path, kind):
             return [("", [("DECODE_ERROR", "", False)])]
     else:
         import openpyxl
-        wb = openpyxl.load_workbook(path, read_only=True, data_only=True, keep_links=False)
-        try:
-            for ws in wb.worksheets:
-                sheets.append((ws.title, list(ws.iter_rows(values_only=True))))
-        finally:
-            wb.close()
+        with open(path, "rb") as fh:          # (opened here: a failing load_workbook(path) would keep the file open)
+            try:
+                wb = openpyxl.load_workbook(fh, read_only=True, data_only=True, keep_links=False)
+            except Exception:                 # noqa — not a workbook: reading it fails before any sheet is handed out
+                return "OPEN_ERROR"
+            try:
+                for ws in wb.worksheets:
+                    try:
+                        sheets.append((ws.title, list(ws.iter_rows(values_only=True))))
+                    except Exception:         # noqa — a damaged sheet part: the first pull of a row raises
+                        sheets.append((ws.title, None))
+            finally:
+                wb.close()
     out = []
     for title, rows in sheets:
+        if rows is None:
+            out.append((title, [("DECODE_ERROR", "", False)]))
+            continue
         src = _Rows(rows)
         seq = []
         for bt, blk in parse_blocks(src, to="cellgrid"):
@@ -245,7 +294,8 @@ def _gen_blocks(rng, names, allow_include=None):
 GAP_KINDS = ["missing", "dup", "txt", "loaderror"]
 
 
-def gen_scenario(rng, api, inject, pat_mode=None, gapkind=None, host_empty=None, bom=None, big_rows=None):
+def gen_scenario(rng, api, inject, pat_mode=None, gapkind=None, host_empty=None, bom=None, big_rows=None,
+                 broken=None):
     """gapkind (load_files only): the k-th include names a file that does not exist / that was already read / with
     an unsupported extension / that the loader refuses (LoadError): the failure is raised by queued_load between
     two files, not while a block is produced"""
@@ -326,6 +376,18 @@ def gen_scenario(rng, api, inject, pat_mode=None, gapkind=None, host_empty=None,
             host["sheets"] = [{"name": "keep0", "blocks": []}]
         blocks = host["sheets"][0]["blocks"]
         blocks.insert(rng.randrange(len(blocks) + 1), {"d": "include", "lines": [tgt], "gap": gapkind})
+    if broken:
+        # a workbook that cannot be opened / read: the single source of read_excel, or (load_files) a root or an include
+        xl = [f for f in files if f["kind"] == "xlsx"]
+        if api == "load_files" and not xl:
+            host = files[rng.choice(roots)]
+            f = mkfile("xlsx", "broken.xlsx")
+            files.append(f)
+            blocks = host["sheets"][0]["blocks"]
+            blocks.insert(rng.randrange(len(blocks) + 1), {"d": "include", "lines": ["broken.xlsx"]})
+            xl = [f]
+        if xl:
+            rng.choice(xl)["broken"] = broken
     if big_rows:
         # one table of the first file that is read gets a row count from the size ladder
         tabs = [b for f in files for sh in f["sheets"] for b in sh["blocks"]
@@ -372,7 +434,10 @@ def build_model_prog(sc, refs, scratch=None):
     state = {"delivered": 0, "fail_at": None, "gap": None}
 
     def file_points(f, is_load):
-        """per sheet: list of (kept, after_exhaustion) for the blocks that are produced"""
+        """per sheet: list of (kept, after_exhaustion) for the blocks that are produced; None: the workbook cannot be
+        opened (load_workbook raises)"""
+        if refs[f["id"]] == "OPEN_ERROR":
+            return None
         sheets = []
         for (title, seq) in refs[f["id"]]:
             read = _sheet_is_read(pattern, f, title)
@@ -414,7 +479,14 @@ def build_model_prog(sc, refs, scratch=None):
                 break
             before = state["delivered"]
             sheets = file_points(f, True)
-            gaps_since_delivery = 0 if state["delivered"] > before else gaps_since_delivery + 1
+            if sheets is None:
+                # the file boundary is passed, the file is opened, loading the workbook raises: the gap after it
+                state["gap"] = (state["delivered"], gaps_since_delivery + 1)
+                fl.append({"kind": "xlsx", "f": f["id"], "sheets": [], "keep": []})
+                break
+            # gaps a failing `next` passes on its way: the file boundary and, for a workbook, the loading of it
+            n_gaps = 2 if f["kind"] == "xlsx" else 1
+            gaps_since_delivery = 0 if state["delivered"] > before else gaps_since_delivery + n_gaps
             keep = [k for _, pts in sheets for k, _ in pts]
             if f["kind"] == "csv":
                 fl.append({"kind": "csv", "f": f["id"], "n": len(keep), "keep": keep})
@@ -425,6 +497,9 @@ def build_model_prog(sc, refs, scratch=None):
         f = sc["files"][0]
         sheets = file_points(f, False)
         src = {"path": f["id"]} if api.endswith(":path") else {"stream": 0}
+        if sheets is None:
+            state["gap"] = (0, 0)               # read_excel of something that is not a workbook: the first next raises
+            sheets = []
         if api.startswith("read_csv"):
             prog = {"fn": "read_csv", "src": src, "n": len(sheets[0][1])}
         else:
@@ -483,27 +558,50 @@ def gen_histories(total, fail_at, rng, full, gap=None):
 
 # --------------------------------------------------------------------------------------------- observation
 
+def _library_warning(msg):
+    """a ResourceWarning about a file object left to the deallocator — wherever the file is; the harness closes its own
+    streams explicitly, openpyxl's own per-sheet scratch files are not pdtable's"""
+    return "unclosed" in msg and os.path.join(tempfile.gettempdir(), "openpyxl.") not in msg
+
+
 class Observer:
+    """descriptors of this process that were not there before the call and are not the harness' own streams: every
+    entry of /proc/self/fd is looked at, not only those pointing into the scratch directory"""
+
     def __init__(self, scratch, paths):
         self.scratch = os.path.realpath(scratch)
         self.ids = {os.path.realpath(p): i for i, p in paths.items()}
         self.own = set()
+        self.tmp_openpyxl = os.path.join(tempfile.gettempdir(), "openpyxl.")
+        self.base = self._table()
 
-    def fds(self):
-        res = set()
+    @staticmethod
+    def _table():
+        tab = {}
         try:
             names = os.listdir(FD_DIR)
         except OSError:
-            return []
+            return tab
         for n in names:
             try:
-                if int(n) in self.own:
-                    continue
-                t = os.readlink(os.path.join(FD_DIR, n))
+                tab[int(n)] = os.readlink(os.path.join(FD_DIR, n))
             except (OSError, ValueError):
                 continue
+        return tab
+
+    def fds(self):
+        res = set()
+        for fd, t in self._table().items():
+            if fd in self.own or self.base.get(fd) == t:
+                continue
+            if t.startswith("/proc/"):
+                continue                              # the listing of /proc/self/fd itself
+            if t.startswith(self.tmp_openpyxl):
+                continue                              # openpyxl's own per-sheet scratch files (see EXTRA assumptions)
             if t.startswith(self.scratch + os.sep):
                 res.add(self.ids.get(t, t))
+            else:
+                res.add("outside-scratch:" + t)
         return sorted(res, key=str)
 
 
@@ -637,7 +735,7 @@ def run_reader_history(sc, paths, scratch, history):
             if stream is not None:
                 stream.close()
         rw = [str(w.message) for w in wlog
-              if issubclass(w.category, ResourceWarning) and os.path.realpath(scratch) in str(w.message)]
+              if issubclass(w.category, ResourceWarning) and _library_warning(str(w.message))]
     return states, rw
 
 
@@ -758,7 +856,7 @@ def run_writer(api, dst_mode, n, fail_at, how, scratch, cells=None):
             if stream is not None:
                 stream.close()
         rw = [str(w.message) for w in wlog
-              if issubclass(w.category, ResourceWarning) and os.path.realpath(scratch) in str(w.message)]
+              if issubclass(w.category, ResourceWarning) and _library_warning(str(w.message))]
     try:
         os.remove(path)
     except OSError:
@@ -794,7 +892,9 @@ def oracle_reader(sc, k, term, history, states, rw, out, case):
             later = [s["fds"] for s in states[i + 1:]]
             released_clean = any(h == "releaseExc" for h in history[i + 1:]) and later and not later[-1]
             xlsx = any(f["kind"] == "xlsx" for f in sc["files"])
-            if st["out"] == "raised" and released_clean and xlsx:
+            if st["out"] == "raised" and a.startswith("throwInGap") and any(f.get("broken") for f in sc["files"]):
+                key = "C19:read_excel-fd-open-after-failed-open"
+            elif st["out"] == "raised" and released_clean and xlsx:
                 key = "C19:xlsx-fd-held-by-traceback-after-error"
             elif st["out"] == "raised":
                 key = "C19:fd-open-after-error:" + api.split(":")[0]
@@ -877,6 +977,8 @@ def run_scenario(sc, rng, full, out, ops, pend, model_ok):
         if any(b.get("d") == "include" for f in sc["files"] for sh in f["sheets"] for b in sh["blocks"]):
             out.count("load_files:include_directive" if sc["api"] == "load_files" else "include_directive_not_followed")
         for f in sc["files"]:
+            if refs[f["id"]] == "OPEN_ERROR":
+                continue
             for title, seq in refs[f["id"]]:
                 if f["kind"] == "xlsx":
                     out.count("xlsx_sheet:" + ("skipped" if not _sheet_is_read(sc["pattern"], f, title)
@@ -961,7 +1063,8 @@ def run_writers(rng, full, out, ops, pend, model_ok):
         # with a table that fails when it is appended, and (Excel) with a failure while the workbook is serialised
         if full:
             big = [(api, dst, c, how) for api in ("write_csv", "write_excel") for dst in ("path", "file") for c in CELL_LADDER
-                   for how in (("-", "format") if api == "write_csv" else ("-", "format", "save_tz", "save_patched"))]
+                   for how in (("-", "format") if api == "write_csv" else ("-", "format", "save_tz", "save_patched"))
+                   if dst == "path" or c <= 16385 or (c == 65537 and how == "save_tz")]
         else:
             big = [("write_excel", "path", c, "save_tz") for c in (1025, 4097, 8193, 65537)]
             big += [("write_excel", "path", 65537, "-"), ("write_excel", "path", 65537, "save_patched"),
@@ -995,15 +1098,19 @@ def run(tier, seed, model_ok, translator, search=False):
     out.rule = ("scenario = reader API x source kind (path / open file / in-memory stream) x generated files (1-4 tables "
                 "per sheet, metadata / directive / template / note blocks, 1-3 sheets, sheet-name pattern matching none / some / all sheets or absent (read_excel, load_files), 1-3 root files "
                 "with include directives for load_files) x error injection (illegal cell + default / raising / collecting "
-                "tracker, raising / dropping filter); for each scenario EVERY prefix length 0..n+1 x {exhaust, close, drop, "
-                "throw} (+ release of the caught exception, + actions on the finished iterator); writers: {csv, excel} x "
+                "tracker, raising / dropping filter); for each scenario every prefix length 0..n+1 (thorough tier: all; quick tier: all when "
+                "n <= 5, else 0, 1, n, n+1 and three sampled ones) x {exhaust, close, drop, throw} (+ release of the caught exception, + actions on the finished iterator); writers: {csv, excel} x "
                 "{str path, PathLike, open file, in-memory stream} x n tables x failing table at every position x {bad "
                 "format / cell, not a Table} + write_excel failing while the workbook is serialised (timezone-aware cell, "
                 "patched openpyxl writer); load_files with the k-th include missing / duplicated / .txt / refused, under the "
-                "default, a raising and a collecting tracker (failure between two files). Non-trivial: >= 2 blocks (readers), >= 2 tables and a failure (writers).")
+                "default, a raising and a collecting tracker (failure between two files; at least one raising duplicate per run); "
+                "CSV files starting with a UTF-8 / UTF-16 / UTF-32 byte order mark; workbooks that cannot be opened or "
+                "read (zip that is not a workbook, zero bytes, truncated, damaged sheet part) as read_excel source and as "
+                "load_files root / include; a size ladder (rows 63..20000 for readers, 1000..131073 value cells for "
+                "writers). Descriptors: every entry of /proc/self/fd that was not there before the call. Non-trivial: >= 2 blocks (readers), >= 2 tables and a failure (writers).")
     rng = make_rng(seed, "C19")
     full = tier == "thorough"
-    per_api = 70 if full else 8
+    per_api = 40 if full else 8
     ops, pend = [], []
     gc_was = gc.isenabled()
     gc.collect()
@@ -1028,6 +1135,16 @@ def run(tier, seed, model_ok, translator, search=False):
                 run_scenario(sc, rng, full, out, ops, pend, model_ok)
                 if len(out.failures) >= 20:
                     break
+        # workbooks that cannot be opened / read, as the source of read_excel and as a root / include of load_files
+        broken_runs = [(api, k) for k in BROKEN_KINDS for api in ("read_excel:path", "load_files")]
+        broken_runs += [("read_excel:file", BROKEN_KINDS[seed % 4]), ("read_excel:bytesio", BROKEN_KINDS[(seed + 1) % 4])]
+        if full:
+            broken_runs = [(api, k) for k in BROKEN_KINDS for api in
+                           ("read_excel:path", "read_excel:file", "read_excel:bytesio", "load_files", "load_files")]
+        for api, kind in broken_runs:
+            sc = gen_scenario(rng, api, "none", rng.choice(["nopattern", "all"]), broken=kind)
+            out.count("broken_workbook:%s:%s" % (api.split(":")[0], kind))
+            run_scenario(sc, rng, full, out, ops, pend, model_ok)
         # CSV files that start with a byte order mark (UTF-8: readable, the mark lands in the first cell; UTF-16 /
         # UTF-32: the platform codec fails at the first line — an error exit with the file open), by path, through
         # load_files, and (UTF-8 mark) as a caller's stream
@@ -1056,7 +1173,8 @@ def run(tier, seed, model_ok, translator, search=False):
         # load_files: the k-th include is missing / a duplicate / a .txt / refused by the loader, under each tracker
         gap_runs = [(gk, tr) for gk in GAP_KINDS for tr in ("none", "tracker_raise", "tracker_collect")]
         if not full:
-            gap_runs = [gr for i, gr in enumerate(gap_runs) if i % 3 == seed % 3 or gr == ("dup", "tracker_collect")]
+            gap_runs = [gr for i, gr in enumerate(gap_runs)
+                        if i % 3 == seed % 3 or gr in (("dup", "tracker_collect"), ("dup", "none"))]
         for rep_i in range(4 if full else 1):
             for gi, (gk, tr) in enumerate(gap_runs):
                 sc = gen_scenario(rng, "load_files", tr, rng.choice(["nopattern", "all"]), gapkind=gk,
